@@ -1133,9 +1133,15 @@ def r4(ctx, R):
         for fact in facts:
             if fact[0] == "notin" and fact[1] == argtxt:
                 coll = fact[2]
+                # the collection may have been built under another name (returned by an inlined helper)
+                names = {coll}
+                for _ in range(4):
+                    for n in ctx.m.walk_own(f.node):
+                        if isinstance(n, ast.Assign) and len(n.targets) == 1 and isinstance(n.targets[0], ast.Name) and isinstance(n.value, ast.Name) and n.targets[0].id in names:
+                            names.add(n.value.id)
                 for w in (n for n in ctx.m.walk_own(f.node) if isinstance(n, ast.While)):
                     steps = any(isinstance(n, ast.Assign) and isinstance(n.value, ast.Attribute) and n.value.attr == "parent" for n in ast.walk(w))
-                    grows = any(isinstance(n, ast.Call) and isinstance(n.func, ast.Attribute) and n.func.attr in ("append", "add") and unparse(n.func.value) == coll for n in ast.walk(w))
+                    grows = any(isinstance(n, ast.Call) and isinstance(n.func, ast.Attribute) and n.func.attr in ("append", "add") and unparse(n.func.value) in names for n in ast.walk(w))
                     bounded = any(isinstance(n, ast.Compare) and isinstance(n.ops[0], (ast.NotIn, ast.In)) for n in ast.walk(w.test)) or any(isinstance(n, ast.Compare) and isinstance(n.ops[0], (ast.NotIn, ast.In)) for n in ast.walk(w))
                     if steps and grows and bounded:
                         guarded = coll
